@@ -686,6 +686,8 @@ class RTCSctpTransport(AsyncIOEventEmitter):
         self._fast_recovery_exit = None
         self._fast_recovery_transmit = False
         self._forward_tsn_chunk: Optional[ForwardTsnChunk] = None
+        self._forward_tsn_needed = False
+        self._forward_tsn_streams: dict[int, int] = {}
         self._flight_size = 0
         self._local_tsn = random32()
         self._last_sacked_tsn = tsn_minus_one(self._local_tsn)
@@ -1664,23 +1666,25 @@ class RTCSctpTransport(AsyncIOEventEmitter):
         """
         Try to advance "Advanced.Peer.Ack.Point" according to RFC 3758.
         """
-        if uint32_gt(self._last_sacked_tsn, self._advanced_peer_ack_tsn):
+        if uint32_gte(self._last_sacked_tsn, self._advanced_peer_ack_tsn):
+            # the peer has caught up with everything we skipped so far
             self._advanced_peer_ack_tsn = self._last_sacked_tsn
+            self._forward_tsn_needed = False
+            self._forward_tsn_streams = {}
 
-        done = 0
-        streams = {}
         while self._sent_queue and self._sent_queue[0]._abandoned:
             chunk = self._sent_queue.popleft()
             self._advanced_peer_ack_tsn = chunk.tsn
-            done += 1
+            self._forward_tsn_needed = True
             if not (chunk.flags & SCTP_DATA_UNORDERED):
-                streams[chunk.stream_id] = chunk.stream_seq
+                self._forward_tsn_streams[chunk.stream_id] = chunk.stream_seq
 
-        if done:
-            # build FORWARD TSN
+        if self._forward_tsn_needed:
+            # build FORWARD TSN; it is sent again until the peer's cumulative
+            # TSN catches up, as the previous one may have been lost
             self._forward_tsn_chunk = ForwardTsnChunk()
             self._forward_tsn_chunk.cumulative_tsn = self._advanced_peer_ack_tsn
-            self._forward_tsn_chunk.streams = list(streams.items())
+            self._forward_tsn_chunk.streams = list(self._forward_tsn_streams.items())
 
     def _update_rto(self, R: float) -> None:
         """
